@@ -54,6 +54,14 @@ class Profile(object):
         self.under6 = [c and r.random() < 0.4 for c in self.ctc]
         if self.itemize and self.n["1098"] == 0 and r.random() < 0.85:
             self.n["1098"] = 1
+        if self.foreign_tax and r.random() < 0.6:
+            # more dividend payers than interest payers (and the other way round): per-payer loops must use their own counts
+            if r.random() < 0.7:
+                self.n["1099-int"] = max(1, min(self.n["1099-int"], 1))
+                self.n["1099-div"] = self.n["1099-int"] + r.choice([1, 2])
+            else:
+                self.n["1099-div"] = max(1, min(self.n["1099-div"], 1))
+                self.n["1099-int"] = self.n["1099-div"] + 1
         if self.div_heavy:
             self.n["1099-div"] = max(1, self.n["1099-div"])
             self.n["w-2"] = min(1, self.n["w-2"])
@@ -254,11 +262,14 @@ class Answerer(object):
                 # sometimes the employer withheld a little (cent rounding) or a lot less, or more, than 1.45 %
                 return "%.2f" % max(0.0, m + r.choice([0.0, 0.0, 0.0, -0.01, -0.05, -120.0, 0.01, 35.0]))
             return "%.2f" % self.small(2000)
+        if fbase in ("1099-int", "1099-div", "1099-g", "1099-r", "1098") and getattr(p, "plain_payers", False):
+            return "0.00"          # a directed scenario sets the boxes it is about through overrides
         if fbase in ("1099-int", "1099-div", "1099-g", "1099-r", "1098"):
             if base in ("box_6", "box_7") and fbase in ("1099-int", "1099-div") and not (fbase == "1099-int" and base == "box_7"):
                 if fbase == "1099-div" and base == "box_6":
                     return "%.2f" % self.small(500)
-                return "%.2f" % (self.small(400) if p.foreign_tax else 0.0)
+                # mostly small amounts (several copies together stay below the $300 / $600 election threshold)
+                return "%.2f" % (r.choice([0.0, 20.0, 45.5, 120.0, 75.25, self.small(400)]) if p.foreign_tax else 0.0)
             if fbase == "1099-div" and p.div_heavy and base in ("box_1a", "box_1b"):
                 d = getattr(self, "_div_" + form, None)
                 if d is None:
@@ -285,6 +296,13 @@ class Answerer(object):
         if base == "other_state_sales_tax":
             # nothing, less than NC's rate on typical purchases, or more than any NC rate could give
             return "%.2f" % r.choice([0.0, 5.0, self.small(60), 80.0, 400.0])
+        if base == "advance_ctc_payments":
+            # 2021: nothing, half, all of the child part of the credit, a little more (eats into the credit for other
+            # dependents), more than the whole credit
+            nctc = sum(1 for k in range(min(p.dependents, 4)) if p.ctc[k])
+            nu6 = sum(1 for k in range(min(p.dependents, 4)) if p.under6[k])
+            child = 3600.0 * nu6 + 3000.0 * (nctc - nu6)
+            return "%.2f" % r.choice([0.0, child / 2, child, child + 250.0, child + 250.0, child + 2100.0])
         if base == "educator_expenses":
             return "%.2f" % r.choice([0.0, 0.0, 100.0, 250.0, 300.0])
         if base in ("estimated_tax_payments", "other_federal_withholding"):
